@@ -14,7 +14,7 @@ static uv_loop_t loop;
 static uv_timer_t* tm[MAXT];
 static int closing_seen[MAXT];
 static int ntm;
-static uint64_t g_at[MAXT], g_req[MAXT], g_seq[MAXT], arm_counter;
+static uint64_t g_at[MAXT], g_req[MAXT], g_seq[MAXT], g_urep[MAXT], arm_counter;
 static char* beh[MAXB];
 static int nbeh, fire_cnt;
 
@@ -32,6 +32,8 @@ static void on_fire(uv_timer_t* h, int tok) {
   uint64_t d = at + req; if (d < req) d = UINT64_MAX;
   (void) due;
   printf("f%d,%d,%" PRIu64 ",%" PRIu64 ",%" PRIu64 ",%" PRIu64 ",%" PRIu64 " ", i, tok, uv_now(&loop), d, g_seq[i], at, req);
+  printf("e%" PRIu64 ",%" PRIu64 ",%" PRIu64 ",%d ", g_urep[i], uv_timer_get_repeat(h), uv_timer_get_due_in(h),
+         uv_is_active((uv_handle_t*) h) ? 1 : 0);
   if (uv_timer_get_repeat(h) != 0 && uv_is_active((uv_handle_t*) h)) {   /* uv_timer_again re-armed it before the callback */
     g_at[i] = uv_now(&loop); g_req[i] = uv_timer_get_repeat(h); g_seq[i] = arm_counter++;
   }
@@ -60,7 +62,7 @@ static void do_ops(char* ops, int in_cb) {
       if (sscanf(tok + 1, "%d,%d,%" SCNu64 ",%" SCNu64, &i, &c, &a, &b) == 4 && i < ntm) {
         uint64_t nowv = uv_now(&loop);
         int r = uv_timer_start(tm[i], cbs[c], a, b);
-        if (r == 0) { g_at[i] = nowv; g_req[i] = a; g_seq[i] = arm_counter++; }
+        if (r == 0) { g_at[i] = nowv; g_req[i] = a; g_seq[i] = arm_counter++; g_urep[i] = b; }
         printf("r%d ", r);
       }
       break;
@@ -76,7 +78,7 @@ static void do_ops(char* ops, int in_cb) {
       }
       break;
     case 'P':
-      if (sscanf(tok + 1, "%d,%" SCNu64, &i, &a) == 2 && i < ntm) uv_timer_set_repeat(tm[i], a);
+      if (sscanf(tok + 1, "%d,%" SCNu64, &i, &a) == 2 && i < ntm) { uv_timer_set_repeat(tm[i], a); g_urep[i] = a; }
       break;
     case 'C':
       if (sscanf(tok + 1, "%d", &i) == 1 && i < ntm && !closing_seen[i]) {
@@ -116,7 +118,7 @@ int main(void) {
     *p2++ = 0;
     uv_loop_init(&loop);
     loop.time = strtoull(line, NULL, 10);
-    ntm = 0; nbeh = 0; fire_cnt = 0; arm_counter = 0;
+    ntm = 0; nbeh = 0; fire_cnt = 0; arm_counter = 0; memset(g_urep, 0, sizeof g_urep);
     memset(closing_seen, 0, sizeof closing_seen);
     {
       /* split behaviours on '|' keeping empty ones */
